@@ -6,7 +6,7 @@ from checks import bech32_common as bc
 LEVEL = "model_checking"
 RULE = ("M: complete for the specification's generator constants: all 1+31W+31^2 W(W-1)/2 error patterns of weight <=2 in the 89-symbol "
         "window are TLC states with VIEW = syndrome; distinct states must equal the number of patterns (=> no error of weight <=4 has "
-        "syndrome 0). Binding: the real polymod on all unit vectors (100 positions x 5 bits) and random vectors equals the specification's; "
+        "syndrome 0). G: TLC-built strings whose checksum residue differs from 1 (all residues at Hamming distance 1 and 2, 0, all ones, the Bech32m constant, a spread) must be rejected. Binding: the real polymod on all unit vectors (100 positions x 5 bits) and random vectors equals the specification's; "
         "T: real Decode on valid strings with all weight-1 substitutions, weight-2 pairs, sampled weight 1..4 incl. same-kind HRP "
         "substitutions must be rejected, as the specification (TLC evaluates the polymod) says. Distinct by input string.")
 
@@ -25,7 +25,11 @@ def run(ctx):
         raise vlib.Infra("BchDistance: %d distinct syndromes for %d patterns - the specification's generator does not have distance 5"
                          % (r["distinct"], exp))
     binp = bc.driver(ctx)
-    t = bc.record(ctx, binp, 25 if q else 400, "c16", focus="c16")
+    vec = [v for v in vlib.read_ndjson(vlib.generate(ctx, "Bech32Gen")) if v["op"] == "bech32.Decode"]
+    g = bc.run_ops(ctx, binp, vec, "g")
+    for e in g:
+        e["t"] = 2
+    t = bc.record(ctx, binp, 25 if q else 400, "c16", focus="c16") + g
     vlib.note_events(ctx, t)
     bc.judge(ctx, binp, t, "real polymod differs from the specification's, or Decode accepted a string with 1..4 substituted characters")
     return vlib.finish(ctx, LEVEL, RULE, bc.ASSUME, matchers=bc.MATCHERS,
